@@ -216,9 +216,12 @@ class MBuild:
         #                          (key, ordinal) -> exception for the n-th call with that key
         self.call_counts = {}
         self.fixed = set()       # outputs written by a timestamp-preserving generator
+        # the directories that hold the cache file: made at the start of the build when missing, but -
+        # like the cache file itself - not part of the view the functions see ("as if the cache file
+        # and the directories created [for it] were gone"); an output built below one of them creates
+        # it virtually like any other directory
         for a in reversed(ancestors(model.cache)):
             if a not in self.v:
-                self.v[a] = ('d',)
                 self.created_cache.append(a)
             elif self.v[a][0] != 'd':
                 raise NotADirectoryError(a)
@@ -399,6 +402,7 @@ class MBuilder:
         """directories that exist only to hold the cache file: whether a listing shows
         them is unspecified (C04 latitude), so a re-execution caused by such a listing
         cannot be judged (C05)"""
+        return      # no latitude any more (D16 repaired): such directories are never part of the view
         if self._node is None:
             return
         pre = p.rstrip('/') + '/'
@@ -636,6 +640,12 @@ class ModelAPI:
             mb.root_finished = True
         # commit
         v = mb.v
+        for a in reversed(ancestors(m.cache)):
+            if a not in v:
+                v[a] = ('d',)
+            elif v[a][0] != 'd':
+                # an output was built where a directory of the cache file has to be
+                raise NotADirectoryError(a)
         v[m.cache] = ('f', b'<cache>', Stamp.fresh())
         m.disk = v
         created = {d for d in list(mb.created) + mb.created_cache
